@@ -368,6 +368,7 @@ fn cmd_batch(args: &Args) {
             hs.push(sc.spawn(move || {
                 let mut wo = WorkerOut { stats: RunStats::new(), fails: Vec::new(), nfails: 0, digests: Vec::new(), steps: 0 };
                 let mut i = args.start + w as u64;
+                let mut cell_limit: usize = 1 << 16;
                 while i < args.start + args.runs {
                     beats[w].store(i, Ordering::Relaxed);
                     beat_time[w].store(t0.elapsed().as_millis() as u64, Ordering::Relaxed);
@@ -379,9 +380,11 @@ fn cmd_batch(args: &Args) {
                     wo.steps += o.stats.steps as u64;
                     add_stats(&mut wo.stats, &o.stats);
                     wo.stats.cells.extend_from_slice(&o.stats.cells);
-                    if wo.stats.cells.len() > 1 << 16 {
+                    if wo.stats.cells.len() > cell_limit {
                         wo.stats.cells.sort_unstable();
                         wo.stats.cells.dedup();
+                        // amortise: next compaction only after the set could have doubled
+                        cell_limit = 2 * wo.stats.cells.len() + (1 << 16);
                     }
                     if keep_digests {
                         wo.digests.push((i, o.digest));
